@@ -2,4 +2,4 @@
 set -e
 cd /verif
 ./weave/target/release/kweave --repo /repo --kc contracts/u2.kc --out /tmp/kw/u2.rs --map /tmp/kw/u2.json "$@"
-cd /tmp/kw && verus u2.rs --cfg 'feature="async"' --multiple-errors 20 --num-threads 16 2>&1 | grep -v '^\s*$'
+cd /tmp/kw && verus u2.rs --cfg 'feature="async"' -C debug-assertions=off --multiple-errors 20 --num-threads 16 2>&1 | grep -v '^\s*$'
